@@ -157,8 +157,14 @@ def get_type_graph(t: type) -> graphlib.TopologicalSorter[TypeNode]:
                 ref = refs.forwardref(
                     refname, is_argument=is_argument, module=module, is_class=is_class
                 )
+                # The wrapped type may be declared in another module than its NewType or alias.
+                umodule = (
+                    module
+                    if unwrapped is child or inspection.isforwardref(unwrapped)
+                    else None
+                )
                 uref = refs.forwardref(
-                    unwrapped, is_argument=is_argument, module=module, is_class=is_class
+                    unwrapped, is_argument=is_argument, module=umodule, is_class=is_class
                 )
                 node = TypeNode(ref, uref, var=var, cyclic=True)
             # Otherwise, add the type to the stack and track that it's been seen.
